@@ -4,7 +4,7 @@ import vf
 
 PROP = "C04"
 THEOREMS = ["diff_apply_exact", "diff_apply_complete", "diff_apply_tick", "diff_apply_tick_dangling_refuted",
-            "diff_canonical", "patch_constructor_identity", "Struct_preserved", "apply_err_is_err",
+            "diff_canonical", "patch_constructor_identity", "WF_preserved_partial", "WF_preserved_refuted", "apply_err_is_err",
             "apply_ok_means_all_applied"]
 PRE = ("From Coq Require Import List NArith Bool.\n"
        "From Echo Require Import Base.FinMap Base.Order Model.Patch.\n"
@@ -33,10 +33,10 @@ PRE = ("From Coq Require Import List NArith Bool.\n"
        "  map (fun wm => (L (fst wm), (L (fst (snd wm)), option_map kt (snd (snd wm))))) (st_insts st)).\n"
        "Definition fr (r : res state) := match r with Ok s => (0, Some (fs s), None) | Err e => (1, None, Some (fe e)) end.\n"
        "Definition wf2 (a b : state) := (wfb a, wfb b).\n"
-       "Definition run_pair (a b : state) := (map fo (diff a b), fr (apply_ops (diff a b) a), wf2 a b).\n"
+       "Definition run_pair (a b : state) := let d := diff a b in (map fo d, fr (apply_ops d a), wf2 a b).\n"
        "Definition run_seq (canon : bool) (a : state) (ops : list op) :=\n"
        "  let r := apply_ops (if canon then patch_new ops else ops) a in\n"
-       "  match r with Ok b => (fr r, Some (wf2 a b, map fo (diff a b), fr (apply_ops (diff a b) a))) | Err _ => (fr r, None) end.\n")
+       "  match r with Ok b => let d := diff a b in (fr r, Some (wf2 a b, map fo d, fr (apply_ops d a))) | Err _ => (fr r, None) end.\n")
 
 BIG = (0xf0 << 248) | 0x11
 BIG2 = (1 << 256) - 1
@@ -660,8 +660,45 @@ def gen_tick(rng, stats):
         cur = nxt
     return f"k=tick a={r_state(a)} w={hid(w)} ops={'/'.join(r_ops(t) for t in ticks)} seed={rng.getrandbits(32)}"
 
+def enum_universe():
+    """the harness' exhaustive universe (enum_states in c04.rs), rebuilt here so that a sample of its pairs also
+    goes through the model"""
+    atts = [None, ("a", 5, (1,)), ("a", 5, (2,)), ("d", 4)]
+    out = []
+    nopts = [None, 0, 1, 2, 3]
+    for n1 in nopts:
+        for n2 in nopts:
+            present = [n for n, o in ((1, n1), (2, n2)) if o is not None]
+            eopts = [None] + [(f, t, 8, at) for f in present for t in present for at in range(4)]
+            for e1 in eopts:
+                for e2 in eopts:
+                    desc = []
+                    if n1 == 3: desc.append(("n", 1, 1, "a"))
+                    if n2 == 3: desc.append(("n", 1, 2, "a"))
+                    if e1 and e1[3] == 3: desc.append(("e", 1, 9, "b"))
+                    if e2 and e2[3] == 3: desc.append(("e", 1, 10, "b"))
+                    if len(desc) > 1:
+                        continue
+                    i = new_inst(1)
+                    for n, o in ((1, n1), (2, n2)):
+                        if o is not None:
+                            i["nodes"][n] = 7
+                            if atts[o]:
+                                i["natt"][n] = atts[o]
+                    for e, o in ((9, e1), (10, e2)):
+                        if o:
+                            i["edges"][e] = (o[0], o[1], o[2])
+                            if atts[o[3]]:
+                                i["eatt"][e] = atts[o[3]]
+                    st = {1: i}
+                    if desc:
+                        st[4] = new_inst(5, desc[0])
+                        st[4]["nodes"][5] = 6
+                    out.append(st)
+    return out
+
 def gen_cases(rng, tier, stats):
-    n = 1200 if tier == "quick" else 12000
+    n = 600 if tier == "quick" else 4000
     cases = []
     for i in range(n):
         a, b = gen_pair(rng, stats)
@@ -686,13 +723,17 @@ def gen_cases(rng, tier, stats):
             stats["seq:random"] = stats.get("seq:random", 0) + 1
     nt = 0
     for i in range(n * 2):
-        if nt >= (300 if tier == "quick" else 3000):
+        if nt >= (250 if tier == "quick" else 1500):
             break
         c = gen_tick(rng, stats)
         if c:
             cases.append(c)
             nt += 1
-    cases.append(f"k=enum sample={'400000' if tier == 'quick' else 'all'} seed={rng.getrandbits(32)} ety=8")
+    uni = enum_universe()
+    stats["universe_states"] = len(uni)
+    for _ in range(150 if tier == "quick" else 1500):
+        cases.append(mk_pair(rng.choice(uni), rng.choice(uni), rng.getrandbits(32)))
+    cases.append(f"k=enum sample={'200000' if tier == 'quick' else 'all'} seed={rng.getrandbits(32)} ety=8")
     return cases
 
 # ----------------------------------------------------------------------------- run
@@ -765,6 +806,12 @@ def run(tier, seed, replay=None):
     r.cov["trusted_base"] = ["coqc 8.16.1 kernel + vm_compute", "python generator/renderer props/c04.py",
                              "harness c04.rs (abstraction WarpState -> canonical dump through public accessors)"]
     r.proof_phase(THEOREMS)
+    if tier == "thorough" and not replay:
+        rc, out = vf.sh(["coqchk", "-silent", "-o", "-Q", vf.COQ, "Echo", "Echo.Props.C04"], timeout=1500)
+        ok_chk = rc == 0 and "Axioms: <none>" in out
+        r.phase("coqchk", ok=ok_chk, tail=out[-300:])
+        if not ok_chk:
+            r.is_broken("coqchk", out[-1500:])
     stats = {}
     if replay:
         d = json.load(open(replay))
@@ -777,6 +824,8 @@ def run(tier, seed, replay=None):
     except vf.Broken as e:
         r.is_broken("harness-build", e)
         return r.finish()
+    import time
+    t_run = time.time()
     try:
         impl, model, oracle = both("c04", cases, bins)
     except vf.Broken as e:
@@ -841,6 +890,32 @@ def run(tier, seed, replay=None):
                 tk[t.split(":")[0]] = tk.get(t.split(":")[0], 0) + 1
     r.cov["engine_ticks"] = tk
     r.cov["samples"] = cases[:2] + [c for c in cases if c.startswith("k=tick")][:1] + cases[-2:-1]
-    r.phase("P4_correspondence", cases=len(cases), differing=len(bad))
+    r.phase("P4_correspondence", cases=len(cases), differing=len(bad), seconds=round(time.time() - t_run, 1))
     r.phase("P5_oracle", failing=sum(1 for o in oracle if o != "ok"))
     return r.finish()
+
+MANIFEST = {
+    "category": "proof",
+    "text": ("Coq theorems (no axioms) over an executable model of tick_patch.rs (WarpOp sort keys, patch constructor dedupe, "
+             "apply_ops_to_state with every TickPatchError and the portal-invariant validation, diff_state with portal "
+             "canonicalisation, skip sets and edge re-creation) and of the GraphStore/WarpState operations it drives: the delta between "
+             "two structurally well-formed states never yields a third state (diff_apply_exact), every transition into a well-formed "
+             "state replays to exactly that state (diff_apply_complete / diff_apply_tick; the well-formedness of the post-state cannot "
+             "be dropped: diff_apply_tick_dangling_refuted), the diff is strictly sorted so the patch constructor is the identity on it, "
+             "op application preserves structural well-formedness (and provably not referential integrity), a failing op is never "
+             "swallowed. Tied to /repo by running model (vm_compute) and the real warp-core on the same generated state pairs and op "
+             "sequences (diff op lists, result kind with error payload, canonical state dumps, well-formedness flags) and by an oracle on "
+             "the implementation alone: apply(diff(a,b), a) equals b by dump and by the implementation's own store hashes / state root, or "
+             "is a typed error only when no committed tick a->b exists; real Engine ticks through a scripted rule "
+             "(patch.apply_to_state(pre) vs Engine::state(), snapshot state root, jump_to_tick); all ordered pairs of a 3648-state "
+             "universe in the thorough tier."),
+    "note": ("Trusted: Coq kernel + vm_compute; python generator/renderer props/c04.py; harness c04.rs (abstraction WarpState -> "
+             "canonical dump through public accessors over the ids of the case). Modelled rather than verified: tick_patch.rs diff/apply, "
+             "graph.rs insert_node/upsert_edge_record/delete_node_isolated/delete_edge_exact/set_*_attachment, warp_state.rs as Gallina "
+             "functions over four sorted maps per store; the store's redundant indexes (edges_from bucket order, edges_to, edge_index, "
+             "edge_to_index) are dropped by the abstraction and instead probed for coherence after every operation "
+             "(signature index-incoherent flags). Patch digest bytes, slots, slicing and the engine's rule execution are outside the model "
+             "(engine ticks are exercised, user rules cannot emit instance/portal ops in debug builds so portal ticks are covered at the "
+             "tick_patch layer only). The check found and the maintainers fixed three replay defects (c24eacb, fd806f7, 8f26be3); their "
+             "oracle signatures reparent-edge-keeps-attachment, retarget-edge-off-deleted-node, portal-owner-created-in-same-tick stay armed."),
+}
